@@ -7,19 +7,36 @@ class Pair(object):
     side B (and optionally side A) is served by a daemon task."""
 
     def __init__(self, service_a, service_b, config_a=None, config_b=None, compress=True, chooser=None,
-                 serve_a=False, kernel_kw=None, hold=False):
+                 serve_a=False, kernel_kw=None, hold=False, connect_in_tasks=False):
         self.k = sk.Kernel(chooser, **(kernel_kw or {}))
         self._cm = self.k.installed()
         self.args = (service_a, service_b, config_a, config_b, compress)
         self.serve_a = serve_a
         self.hold = hold
+        self.connect_in_tasks = connect_in_tasks
 
     def __enter__(self):
         self._cm.__enter__()
         try:
             sa, sb, ca, cb, compress = self.args
             link = sk.Link(self.k, hold_a=self.hold, hold_b=self.hold)
-            self.a, self.b, self.link = sk.connect_pair(self.k, sa, sb, ca, cb, compress, link=link)
+            if self.connect_in_tasks:
+                # services whose on_connect talks to the peer (classic): both ends connect concurrently as tasks
+                from rpyc.core.channel import Channel
+                made = {}
+
+                def mk(name, svc, stream, cfg):
+                    if isinstance(svc, type):
+                        svc = svc()
+                    made[name] = svc._connect(Channel(stream, compress), cfg or {})
+                self.k.spawn(mk, "a", sa, link.a, ca, name="connect-A")
+                self.k.spawn(mk, "b", sb, link.b, cb, name="connect-B")
+                self.k.run()
+                if self.k.deadlock or "a" not in made or "b" not in made:
+                    raise sk.KernelStuck("connecting the pair failed: %r" % (self.k.deadlock,))
+                self.a, self.b, self.link = made["a"], made["b"], link
+            else:
+                self.a, self.b, self.link = sk.connect_pair(self.k, sa, sb, ca, cb, compress, link=link)
             if not self.hold:
                 self.server_task = self.k.spawn(self._serve, self.b, name="serve-B", daemon=True)
                 if self.serve_a:
